@@ -68,6 +68,19 @@ func asStringSlice(v interface{}) ([]string, bool) {
 	return nil, false
 }
 
+// asSeconds returns v as a number of seconds: yaml decodes a whole number ("timeout-ops: 60") into
+// an int, not a float64.
+func asSeconds(v interface{}) (float64, bool) {
+	switch t := v.(type) {
+	case float64:
+		return t, true
+	case int:
+		return float64(t), true
+	}
+
+	return 0, false
+}
+
 func (o *optionDefinitions) asOptions() []util.Option { //nolint: gocyclo,gocognit,funlen
 	opts := make([]util.Option, len(*o))
 
@@ -120,18 +133,18 @@ func (o *optionDefinitions) asOptions() []util.Option { //nolint: gocyclo,gocogn
 
 			opts[i] = options.WithReturnChar(strVal)
 		case readDelay:
-			floatVal, ok := opt.Value.(float64)
+			floatVal, ok := asSeconds(opt.Value)
 			if !ok {
-				panic("option readDelay value must be a float")
+				panic("option readDelay value must be a number")
 			}
 
 			opts[i] = options.WithReadDelay(
 				time.Duration(floatVal * float64(time.Second)),
 			)
 		case timeoutOps:
-			floatVal, ok := opt.Value.(float64)
+			floatVal, ok := asSeconds(opt.Value)
 			if !ok {
-				panic("option timeoutOps value must be a float")
+				panic("option timeoutOps value must be a number")
 			}
 
 			opts[i] = options.WithTimeoutOps(
